@@ -530,7 +530,7 @@ def replay_concrete(hdef: HarnessDef, model: Dict[str, Any], choices: List[int])
     v = V(ctx, hdef, None, None)
     try:
         hdef.fn(v)
-        return 'ran', ctx.results, ''
+        return 'ran', ctx.results, '\n'.join(ctx.trace)
     except ReplayInvalid as e:
         return 'invalid', ctx.results, str(e)
     except core.PathDone:
